@@ -207,6 +207,81 @@ fn pure_case(case: &Case, ev: &Evidence) -> CaseResult {
     Ok(())
 }
 
+/// The reference's own decryption of a commit sent as PrivateMessage (RFC 9420 §6.3), re-framed as the PublicMessage the
+/// sender would have sent (dummy membership tag): sender data key from the ciphertext sample, sender data, handshake
+/// ratchet key and nonce of the sender's leaf at the announced generation, reuse guard, content, padding check.
+fn decrypt_private_commit(s: &Suite, cs: &crate::providers::VSuite, msg: &[u8], keys: &mls_rs::verif_hooks::VerifEpochKeys, expect_leaf: u32) -> Option<Vec<u8>> {
+    use crate::refmodel::tls::{put_opaque, Reader};
+    let mut r = Reader::new(msg);
+    let version = r.u16()?;
+    if r.u16()? != 2 {
+        return None;
+    }
+    let group_id = r.opaque()?.to_vec();
+    let epoch = r.u64()?;
+    let content_type = r.u8()?;
+    let authenticated_data = r.opaque()?.to_vec();
+    let esd = r.opaque()?.to_vec();
+    let ciphertext = r.opaque()?.to_vec();
+    if !r.is_empty() || content_type != 3 {
+        return None;
+    }
+    let (sd_key, sd_nonce) = rk::sender_data_key(s, &keys.sender_data_secret, &ciphertext);
+    let mut sd_aad = vec![];
+    put_opaque(&mut sd_aad, &group_id);
+    sd_aad.extend_from_slice(&epoch.to_be_bytes());
+    sd_aad.push(content_type);
+    let sd = mls_rs::CipherSuiteProvider::aead_open(cs, &sd_key, &esd, Some(&sd_aad), &sd_nonce).ok()?;
+    let mut d = Reader::new(&sd);
+    let leaf = d.u32()?;
+    let generation = d.u32()?;
+    let guard = d.take(4)?.to_vec();
+    if leaf != expect_leaf {
+        return None;
+    }
+    let root = keys.secret_tree_leaf_count - 1;
+    let enc_secret = keys.secret_tree_nodes.iter().find(|(n, _)| *n == root).map(|(_, v)| v.clone())?;
+    let (key, mut nonce) = rk::ratchet_key(s, &enc_secret, keys.secret_tree_leaf_count, leaf, true, generation);
+    for i in 0..4 {
+        nonce[i] ^= guard[i];
+    }
+    let mut aad = vec![];
+    put_opaque(&mut aad, &group_id);
+    aad.extend_from_slice(&epoch.to_be_bytes());
+    aad.push(content_type);
+    put_opaque(&mut aad, &authenticated_data);
+    let content = mls_rs::CipherSuiteProvider::aead_open(cs, &key, &ciphertext, Some(&aad), &nonce).ok()?;
+    let clen = wire::commit_len(&content)?;
+    let mut t = Reader::new(&content[clen..]);
+    let signature = t.opaque()?.to_vec();
+    let tag = t.opaque()?.to_vec();
+    if content[clen + t.pos..].iter().any(|b| *b != 0) {
+        return None;
+    }
+    let mut out = vec![];
+    out.extend_from_slice(&version.to_be_bytes());
+    out.extend_from_slice(&1u16.to_be_bytes());
+    put_opaque(&mut out, &group_id);
+    out.extend_from_slice(&epoch.to_be_bytes());
+    out.push(1);
+    out.extend_from_slice(&leaf.to_be_bytes());
+    put_opaque(&mut out, &authenticated_data);
+    out.push(content_type);
+    out.extend_from_slice(&content[..clen]);
+    put_opaque(&mut out, &signature);
+    put_opaque(&mut out, &tag);
+    put_opaque(&mut out, &[0u8; 32]);
+    Some(out)
+}
+
+fn psk_value(id: &[u8]) -> Vec<u8> {
+    let mut v = vec![0x5a; 32];
+    for (i, b) in id.iter().enumerate() {
+        v[i % 32] ^= *b;
+    }
+    v
+}
+
 /// End-to-end: a live group with public handshake messages; every value the library holds after
 /// a commit is recomputed by the reference from the public message and the previous epoch's secrets.
 fn live_case(seed: u64, ev: &Evidence) -> CaseResult {
@@ -216,7 +291,10 @@ fn live_case(seed: u64, ev: &Evidence) -> CaseResult {
     let s = Suite::new(suite);
     let mut cfg = WorldCfg::default_for(suite);
     cfg.providers = vec![ProviderKind::ALL[rng.below(3) as usize]];
-    cfg.encrypt_handshake = false;
+    // one group in three sends its commits as PrivateMessage: the reference then decrypts the commit itself (sender data,
+    // handshake ratchet, reuse guard) and the transcript takes wire_format = private
+    cfg.encrypt_handshake = rng.below(3) == 0;
+    let private = cfg.encrypt_handshake;
     let prov = cfg.providers[0];
     let mut w = World::new(P, cfg);
     let a = w.new_party();
@@ -226,11 +304,29 @@ fn live_case(seed: u64, ev: &Evidence) -> CaseResult {
         let members = w.members();
         let committer = members[rng.below(members.len() as u64) as usize];
         let before = w.parties[committer].g().verif_epoch_keys();
+        let committer_leaf_before = w.parties[committer].leaf();
         let ctx_before = w.parties[committer].g().context().mls_encode_to_vec().expect("ctx");
         let mut spec = CommitSpec::default();
-        // path-less add-only commits have commit_secret = 0: the whole chain is recomputable
-        let p = w.new_party();
-        spec.add.push(p);
+        // path-less commits have commit_secret = 0: the whole chain is recomputable. Either an add-only commit, or a commit
+        // that injects 2-3 external PSKs by value in a generated order (the PSK chain of RFC 9420 §8.4 depends on the order
+        // of the proposals in the commit).
+        let with_psks = w.members().len() >= 2 && rng.below(2) == 0;
+        if with_psks {
+            let mut ids: Vec<Vec<u8>> = vec![b"psk-c".to_vec(), b"psk-a".to_vec(), b"psk-b".to_vec()];
+            for k in (1..ids.len()).rev() {
+                ids.swap(k, rng.below(k as u64 + 1) as usize);
+            }
+            ids.truncate(2 + rng.below(2) as usize);
+            for id in &ids {
+                for q in 0..w.parties.len() {
+                    w.parties[q].pstore.put(id, &psk_value(id));
+                }
+            }
+            spec.external_psks = ids;
+        } else {
+            let p = w.new_party();
+            spec.add.push(p);
+        }
         spec.aad = rng.blob(8);
         let info = match w.commit_round(committer, &spec)? {
             Ok(i) => i,
@@ -240,25 +336,64 @@ fn live_case(seed: u64, ev: &Evidence) -> CaseResult {
         let g = w.parties[committer].g();
         let after = g.verif_epoch_keys();
         let ctx_after = g.context().mls_encode_to_vec().expect("ctx");
-        let pm = wire::parse_public_message(&info.commit_bytes).ok_or_else(|| Failure::new(format!("{P}|commit_unparsable"), String::new()))?;
-        // membership tag of the commit under the OLD membership key and OLD context
-        let mt = rk::membership_tag(&s, &before.key_schedule.membership_key, pm.version, 1, pm.framed_content, &ctx_before, pm.auth_data);
-        cmp("membership_tag", suite, prov, pm.membership_tag.unwrap_or(&[]), &mt, || format!("commit {i}"))?;
-        // and the library's own function on the same message agrees
-        let msg = MlsMessage::from_bytes(&info.commit_bytes).expect("decode");
         let cs = w.parties[committer].suite_provider(suite);
-        let ctx_before_v = GroupContext::mls_decode(&mut &ctx_before[..]).expect("ctx");
-        let lib_mt = hk::membership_tag(&cs, &before.key_schedule.membership_key, &ctx_before_v, &msg).map_err(|e| Failure::new(format!("{P}|library_error"), format!("{e:?}")))?;
-        cmp("membership_tag_hook", suite, prov, &lib_mt, &mt, || format!("commit {i}"))?;
-        // confirmed transcript hash from the public message
-        let cth = rk::confirmed_transcript_hash(&s, &before.interim_transcript_hash, 1, pm.framed_content, pm.signature);
-        cmp("confirmed_transcript_hash", suite, prov, &g.context().confirmed_transcript_hash, &cth, || format!("commit {i}"))?;
-        let lib_cth = hk::confirmed_transcript_hash(&cs, &before.interim_transcript_hash, &msg).map_err(|e| Failure::new(format!("{P}|library_error"), format!("{e:?}")))?;
-        cmp("confirmed_transcript_hash_hook", suite, prov, &lib_cth, &cth, || format!("commit {i}"))?;
+        // the commit as a public message: either as sent, or rebuilt from the reference's own decryption of the PrivateMessage
+        let commit_public: Vec<u8> = if private {
+            decrypt_private_commit(&s, &cs, &info.commit_bytes, &before, committer_leaf_before).ok_or_else(|| Failure::new(format!("{P}|private_commit_not_decryptable_by_reference"), format!("suite {suite} {}", prov.name())))?
+        } else {
+            info.commit_bytes.clone()
+        };
+        let pm = wire::parse_public_message(&commit_public).ok_or_else(|| Failure::new(format!("{P}|commit_unparsable"), String::new()))?;
+        if !private {
+            // membership tag of the commit under the OLD membership key and OLD context
+            let mt = rk::membership_tag(&s, &before.key_schedule.membership_key, pm.version, 1, pm.framed_content, &ctx_before, pm.auth_data);
+            cmp("membership_tag", suite, prov, pm.membership_tag.unwrap_or(&[]), &mt, || format!("commit {i}"))?;
+            // and the library's own function on the same message agrees
+            let msg = MlsMessage::from_bytes(&info.commit_bytes).expect("decode");
+            let ctx_before_v = GroupContext::mls_decode(&mut &ctx_before[..]).expect("ctx");
+            let lib_mt = hk::membership_tag(&cs, &before.key_schedule.membership_key, &ctx_before_v, &msg).map_err(|e| Failure::new(format!("{P}|library_error"), format!("{e:?}")))?;
+            cmp("membership_tag_hook", suite, prov, &lib_mt, &mt, || format!("commit {i}"))?;
+        }
+        // confirmed transcript hash from the message (wire format 1 = public, 2 = private)
+        let wf: u16 = if private { 2 } else { 1 };
+        let cth = rk::confirmed_transcript_hash(&s, &before.interim_transcript_hash, wf, pm.framed_content, pm.signature);
+        cmp(if private { "confirmed_transcript_hash(private commit)" } else { "confirmed_transcript_hash" }, suite, prov, &g.context().confirmed_transcript_hash, &cth, || format!("commit {i}"))?;
+        if !private {
+            let msg = MlsMessage::from_bytes(&info.commit_bytes).expect("decode");
+            let lib_cth = hk::confirmed_transcript_hash(&cs, &before.interim_transcript_hash, &msg).map_err(|e| Failure::new(format!("{P}|library_error"), format!("{e:?}")))?;
+            cmp("confirmed_transcript_hash_hook", suite, prov, &lib_cth, &cth, || format!("commit {i}"))?;
+        } else {
+            ev.class("live_private_commits_decrypted_by_reference");
+        }
         // key schedule of the new epoch (commit_secret = 0 when there is no path, psk_secret = 0)
         if !info.had_path {
             let nh = s.nh();
-            let want = rk::key_schedule(&s, &before.key_schedule.init_secret, &vec![0u8; nh], &ctx_after, &vec![0u8; nh]);
+            // PSKs in the order in which the commit lists them, with the nonces it announces
+            let mut psks: Vec<(rk::PskIdRef, Vec<u8>)> = vec![];
+            for i in 0.. {
+                let (Some(id), Some(nonce)) = (pm.spans.iter().find(|x| x.name == format!("commit.proposals[{i}].psk.psk_id")), pm.spans.iter().find(|x| x.name == format!("commit.proposals[{i}].psk.psk_nonce"))) else {
+                    if pm.spans.iter().any(|x| x.name.starts_with(&format!("commit.proposals[{i}]."))) {
+                        continue;
+                    }
+                    break;
+                };
+                let id = crate::refmodel::tls::Reader::new(&commit_public[id.start..id.end]).opaque().unwrap_or_default().to_vec();
+                let nonce = crate::refmodel::tls::Reader::new(&commit_public[nonce.start..nonce.end]).opaque().unwrap_or_default().to_vec();
+                let value = psk_value(&id);
+                psks.push((rk::PskIdRef::External { id, nonce }, value));
+            }
+            let psk_secret = if psks.is_empty() { vec![0u8; nh] } else { rk::psk_secret(&s, &psks) };
+            if psks.len() >= 2 {
+                ev.class("live_commits_with_several_psks");
+                let sorted = psks.windows(2).all(|w| match (&w[0].0, &w[1].0) {
+                    (rk::PskIdRef::External { id: a, .. }, rk::PskIdRef::External { id: b, .. }) => a <= b,
+                    _ => true,
+                });
+                if !sorted {
+                    ev.class("live_commits_with_psks_not_in_id_order");
+                }
+            }
+            let want = rk::key_schedule(&s, &before.key_schedule.init_secret, &vec![0u8; nh], &ctx_after, &psk_secret);
             cmp("live.init_secret", suite, prov, &after.key_schedule.init_secret, &want.init_secret, || format!("commit {i}"))?;
             cmp("live.membership_key", suite, prov, &after.key_schedule.membership_key, &want.membership_key, || format!("commit {i}"))?;
             cmp("live.exporter_secret", suite, prov, &after.key_schedule.exporter_secret, &want.exporter_secret, || format!("commit {i}"))?;
@@ -297,8 +432,8 @@ pub fn run(ctx: &Ctx) -> ! {
         "differential against an independent RFC 9420 implementation on bare SHA-2/HMAC (refmodel::keysched), calibrated at start-up on the IETF vectors \
          (basic crypto, key schedule, PSK secret, secret tree, transcript hashes). Generated per case: suite (1-7) x provider; random init/commit/PSK secrets and GroupContext \
          (ids, hashes, 0-3 extensions); PSK lists of 0-5 mixed external/resumption ids with random nonces; tree sizes 2^0..2^10, any leaf, generations 0..2000, both ratchets; \
-         exporter label/context/length incl. 0, 255*Nh and 255*Nh+1; sender-data samples shorter and longer than Nh; tags and interim hashes. Plus live groups with public handshake: \
-         membership tag, confirmed/interim transcript hash, confirmation tag and, for path-less commits, every secret of the new epoch recomputed from the previous epoch's init secret. \
+         exporter label/context/length incl. 0, 255*Nh and 255*Nh+1; sender-data samples shorter and longer than Nh; tags and interim hashes. Plus live groups (two thirds with public handshake; with encrypted handshake the reference decrypts the commit itself): \
+         membership tag, confirmed/interim transcript hash, confirmation tag and, for path-less commits, every secret of the new epoch recomputed from the previous epoch's init secret, incl. commits that inject 2-3 external PSKs in a generated (not id-sorted) order. \
          Non-trivial = derivation with a non-zero PSK secret / >= 1 PSK / generation > 0 or leaf > 0 / any export; distinct by input values.",
     );
     ev.assume("refmodel::keysched and refmodel::wire are correct; they are calibrated on the IETF interop vectors before every run");
